@@ -21,6 +21,8 @@ import sys
 import tempfile
 
 ALL = [f'C{i:02d}' for i in range(1, 21)]
+# the checks are run from a frozen snapshot of /verif when one exists (so that edits made while a batch is evaluated do not change the verdicts)
+RUN_HOME = os.environ.get('VERIF_FROZEN') or ('/tmp/verif_frozen' if os.path.exists('/tmp/verif_frozen/run.py') else '/verif')
 ap = argparse.ArgumentParser()
 ap.add_argument('out_dir')
 ap.add_argument('prop')
@@ -63,7 +65,7 @@ for diff in sorted(glob.glob(os.path.join(a.out_dir, 'change*.diff'))):
         for c in checks:
             env = dict(os.environ, KERNPY_SRC=tree)
             try:
-                rr = subprocess.run(['/venv/bin/python', '/verif/run.py', 'check', c, '--tier', a.tier, '--no-confirm'], capture_output=True, text=True, env=env, timeout=1500)
+                rr = subprocess.run(['/venv/bin/python', RUN_HOME + '/run.py', 'check', c, '--tier', a.tier, '--no-confirm'], capture_output=True, text=True, env=env, timeout=1500)
             except subprocess.TimeoutExpired:
                 broken.append(c)
                 detail[c] = 'timeout after 1500 s'
